@@ -553,3 +553,130 @@ def run_fields(chk, F):
     recs = any(c.get("name") == "subst" for n in walk(su["body"]) if n.get("k") == "for" for c in calls(n["body"]))
     chk.ob(rid, "subst|children", recs, "expression_t::subst does not recurse into every child",
            "%s:%s" % (su["file"], su["line"]))
+
+
+# ---------------------------------------------------------------------------------------------- R-EMPTYOK
+# The empty expression (no node) is a legal value of the API: subst, get_size, print, the collectors all start with an
+# empty() test, and the library itself stores it as a child - the missing field of `rec_t r = {1};` is an empty child of
+# the LIST that checkInitialiser keeps as the initialiser.  The cloning functions and equal() dereferenced `data` without
+# the test (found by a defect-hunt sub-agent, E19-2: clone_deeper() and equal() crashed on that initialiser).
+EMPTYOK_FAMILY = ("clone", "clone_deeper", "equal", "subst")
+
+
+def run_emptyok(chk, F, rid="R-EMPTYOK"):
+    from ..inline import sites_with_conditions, strip
+    chk.rule(rid, "in expression_t::%s every access through `data` (of the node itself and of the other operand) is reached "
+                  "only on paths on which an empty() test (or a null test of data) of that node has failed" %
+             " / ".join(EMPTYOK_FAMILY))
+    n = 0
+    for name in EMPTYOK_FAMILY:
+        fns = [f for f in F.fns("UTAP::expression_t::" + name) if f.get("body") is not None]
+        if not fns:
+            raise AnalysisBroken("expression_t::%s not found" % name)
+        for fn in fns:
+            def owner(x):
+                """'this' / name of the expression whose data is dereferenced, for `data->m` and `e.data->m`"""
+                if not (x.get("k") == "member" and x.get("arrow") and x.get("of", "").endswith("expression_data")):
+                    return None
+                b = x.get("base")
+                for y in walk(b):
+                    if y.get("k") == "member" and y.get("name") == "data" and y.get("of") == "UTAP::expression_t":
+                        bb = strip(y.get("base")) if y.get("base") is not None else None
+                        if bb is None or bb.get("k") == "this" or y.get("arrow") and bb.get("k") == "this":
+                            return "this"
+                        if bb.get("k") == "ref" and bb.get("dk") == "param":
+                            return short(bb)
+                        return None       # a local built in the function (`expression_t{kind, pos}`): has a node
+                return None
+            for site, conds in sites_with_conditions(fn["body"], lambda x: owner(x) is not None):
+                who = owner(site)
+                n += 1
+
+                def rules_out(c, t):
+                    c = strip(c)
+                    neg = False
+                    while isinstance(c, dict) and c.get("k") == "un" and c.get("op") == "!":
+                        c, neg = strip(c["e"]), not neg
+                    if not isinstance(c, dict):
+                        return False
+                    if c.get("k") == "bin" and c.get("op") == "||" and (t != neg) is False:
+                        # (A || B) false: both false
+                        return rules_out(c["lhs"], neg) or rules_out(c["rhs"], neg)
+                    if c.get("k") == "bin" and c.get("op") == "&&" and (t != neg) is True:
+                        return rules_out(c["lhs"], not neg) or rules_out(c["rhs"], not neg)
+                    if c.get("k") == "call" and c.get("name") == "empty" and c.get("cls") == "UTAP::expression_t":
+                        r = strip(c.get("recv")) if c.get("recv") is not None else None
+                        w = "this" if (r is None or r.get("k") == "this") else short(r)
+                        return w == who and (t != neg) is False
+                    return False
+                ok = any(rules_out(c, t) for c, t in conds)
+                chk.ob(rid, "%s/%d|%s|%s" % (name, len(fn.get("params", [])), who, site.get("name")), ok,
+                       "%s reads %s->%s of %s without having ruled out the empty expression: an empty child (the missing "
+                       "field of an incomplete initialiser is stored as one) makes it dereference a null pointer" %
+                       (fn["q"], "data", site.get("name"), "the node" if who == "this" else "`%s`" % who),
+                       "%s:%s" % (fn["file"], site.get("l")))
+    if n < 20:
+        raise AnalysisBroken("R-EMPTYOK: only %d accesses through data found" % n)
+
+
+# ---------------------------------------------------------------------------------------------- R-EQTEXT
+def run_eqtext(chk, F, rid="R-EQTEXT"):
+    """`equal implies equal text`: equal() compares kind, value, symbol and children.  Where print() chooses the text of a
+    node by the node's own type, two nodes that agree on all of those can still print differently - `1` and `true` are the
+    CONSTANT 1 with type int / bool (E19-1), an initialiser list has braces that the list of a query has not."""
+    from ..inline import KindSlicer, strip
+    chk.rule(rid, "for every kind K whose clause in expression_t::print branches on the type of the node itself, "
+                  "expression_t::equal has a test for kind K that compares a type-derived value of both operands and "
+                  "answers false when they differ")
+    pr = [f for f in F.fns("UTAP::expression_t::print") if f.get("body") is not None and len(f.get("params", [])) == 2]
+    if not pr:
+        raise AnalysisBroken("expression_t::print(os, old) not found")
+    sl = KindSlicer(F, pr[0], subject="this")
+    tab, _ = size_table(F)
+
+    def own(e):
+        e = strip(e) if e is not None else None
+        return e is None or e.get("k") == "this" or (e.get("k") == "un" and e.get("op") == "*" and
+                                                     strip(e["e"]).get("k") == "this")
+    typed = {}
+    for K in sorted(tab):
+        try:
+            body = sl.slice(K)
+        except Exception:
+            continue
+        for n in walk(body):
+            cs = []
+            if n.get("k") in ("if", "cond"):
+                cs.append(n["c"])
+            elif n.get("k") == "decl":
+                cs += [v["init"] for v in n.get("vars", []) if v.get("init") is not None and "bool" in (v.get("t") or "")]
+            for c in cs:
+                for x in calls(c):
+                    if x.get("name") == "get_type" and x.get("cls") == "UTAP::expression_t" and own(x.get("recv")):
+                        typed[K] = x.get("l")
+    if "CONSTANT" not in typed:
+        raise AnalysisBroken("R-EQTEXT: print's CONSTANT clause does not read the type of the node (reader out of date)")
+    eq = F.fn("UTAP::expression_t::equal")
+    from ..inline import expanded_fn
+    eqx = expanded_fn(eq, F, accept=lambda t: bool(t.get("static")) and not t.get("cls"), maxdepth=2)
+    for K in sorted(typed):
+        ok = False
+        for n in walk(eqx["body"]):
+            if n.get("k") != "if":
+                continue
+            c = n["c"]
+            kind_test = any(x.get("dk") == "enumerator" and x.get("name") == K for x in walk(c))
+            sides = set()
+            for x in walk(c):
+                if x.get("k") == "member" and x.get("name") == "type" and x.get("of", "").endswith("expression_data"):
+                    sides.add("other" if any(y.get("k") == "ref" and y.get("dk") == "param" for y in walk(x.get("base"))) else "this")
+                if x.get("k") == "call" and x.get("name") == "get_type" and x.get("cls") == "UTAP::expression_t":
+                    sides.add("this" if own(x.get("recv")) else "other")
+            rets_false = any(r.get("k") == "return" and (strip(r.get("e")) or {}).get("v") is False for r in walk(n["then"]))
+            if kind_test and sides == {"this", "other"} and rets_false:
+                ok = True
+        chk.ob(rid, "equal|%s" % K, ok,
+               "expression_t::print chooses the text of a %s node by the type of the node (line %s), but expression_t::equal "
+               "compares kind, value, symbol and children only: two %s nodes that differ in their type alone are equal and "
+               "print differently (`1` and `true` are both the constant 1)" % (K, typed[K], K),
+               "%s:%s" % (eq["file"], eq["line"]), sample="equal compares the type class of %s nodes" % K)
